@@ -36,7 +36,8 @@ type Scenario struct {
 	Msg             string `json:"msg"`
 	Prod            bool   `json:"prod"` // informational: decided by the child's binary name
 	// FlagHow: "set" SetFlags(f) | "addremove" AddFlags/RemoveFlags | "scope" inside a SaveFlagsAndMod scope whose
-	// outside has the opposite termination flags | "restored" after such a scope was closed again
+	// outside has the opposite termination flags | "restored" after such a scope was closed again | "redundant" after a
+	// closed scope that added flags which were set already
 	FlagHow string `json:"flag_how,omitempty"`
 	// Dest: "" the harness's own unbuffered file writer (appends a record separator) | "filewriter" the package's
 	// slog.NewFileWriter on the same file (child processes only)
@@ -104,6 +105,13 @@ func setup(s Scenario, w io.Writer) slog.Logger {
 	case "scope":
 		slog.SetFlags(opposite)
 		restore = slog.SaveFlagsAndMod(flags&^opposite, opposite&^flags)
+	case "redundant":
+		// the doc comment's own idiom, defer SaveFlagsAndMod(f)(), with flags that are set already (and one that is not)
+		slog.SetFlags(flags)
+		r := slog.SaveFlagsAndMod(flags&tbits|slog.Ldate, 0)
+		tmp := slog.New("c12tmp").SetWriter(io.Discard).SetErrorWriter(io.Discard).SetLevel(slog.AlwaysLevel)
+		tmp.Info("inside the scope")
+		r()
 	case "restored":
 		slog.SetFlags(flags)
 		r := slog.SaveFlagsAndMod(opposite&^flags, flags&^opposite)
@@ -115,9 +123,8 @@ func setup(s Scenario, w io.Writer) slog.Logger {
 		slog.SetFlags(flags)
 	}
 	_ = restore // the scope stays open for the call (the process / case ends afterwards)
-	if slog.GetFlags()&tbits != flags&tbits {
-		panic("harness: termination flags not as wanted")
-	}
+	// (no assertion on GetFlags here: if the flag functions lose a termination flag on one of these paths, the
+	// termination oracle below reports what the user would see)
 	lg := slog.New("c12")
 	switch s.Format {
 	case "json":
@@ -405,7 +412,7 @@ func TestChildSampled(t *testing.T) {
 		s.InterruptAlways = rapid.Bool().Draw(t, "interruptAlways")
 		s.Format = rapid.SampledFrom(formats).Draw(t, "format")
 		s.Prod = rapid.Bool().Draw(t, "production")
-		s.FlagHow = rapid.SampledFrom([]string{"set", "set", "addremove", "scope", "restored"}).Draw(t, "flagHow")
+		s.FlagHow = rapid.SampledFrom([]string{"set", "set", "addremove", "scope", "restored", "redundant"}).Draw(t, "flagHow")
 		s.Msg = "c12 " + rapid.StringMatching(`[a-z]{1,8}( [a-z]{1,5}){0,2}`).Draw(t, "msg")
 		s.Dest = rapid.SampledFrom([]string{"", "", "filewriter"}).Draw(t, "destination")
 		runChild(t, "TestChildSampled", s, dir)
@@ -463,7 +470,7 @@ func TestInProcess(t *testing.T) {
 		s.NoInterrupt = rapid.Bool().Draw(t, "noInterrupt")
 		s.InterruptAlways = rapid.Bool().Draw(t, "interruptAlways")
 		s.Format = rapid.SampledFrom(formats).Draw(t, "format")
-		s.FlagHow = rapid.SampledFrom([]string{"set", "set", "addremove", "scope", "restored"}).Draw(t, "flagHow")
+		s.FlagHow = rapid.SampledFrom([]string{"set", "set", "addremove", "scope", "restored", "redundant"}).Draw(t, "flagHow")
 		s.Msg = "c12 " + vlib.GenMsg().Draw(t, "msg")
 		prod := vlib.ProductionMode()
 		s.Prod = prod
